@@ -151,6 +151,12 @@ class QuantMixin:
             return direct
         v = smt.elem_at(s, t)
         self._add_axiom(z3.Implies(z3.And(t >= 0, t < z3.Length(s)), v == s[t]))
+        # deep JSON-ness: an element of a JSON array (as it was on entry) is JSON
+        if z3.is_app(s) and s.decl().kind() == z3.Z3_OP_SELECT and z3.is_const(s.arg(0)) and \
+                s.arg(0).decl().name() == 'H_seq' and z3.is_app(s.arg(1)) and s.arg(1).decl().name() == 'r':
+            owner = s.arg(1).arg(0)
+            self._add_axiom(z3.Implies(z3.And(smt.isjson(owner), t >= 0, t < z3.Length(s)),
+                                       self.type_formula(v, 'json', hint=False)))
         return v
 
     # ------------------------------------------------------------------ all / any over generator expressions
@@ -452,9 +458,9 @@ class QuantMixin:
             rv = smt.elem_at(R, t)
             self._add_axiom(z3.Implies(in_range, rv == R[t]))
             if raises:
-                self.assume(z3.Implies(in_range, z3.Not(at(raise_guard, t))))
+                self._add_axiom(z3.Implies(in_range, z3.Not(at(raise_guard, t))))
             if rets:
-                self.assume(z3.Implies(in_range, z3.Or(*[z3.And(at(g, t), rv == at(v, t)) for g, v in rets])))
+                self._add_axiom(z3.Implies(in_range, z3.Or(*[z3.And(at(g, t), rv == at(v, t)) for g, v in rets])))
                 cs = set(c for c in ret_cls if c is not None)
                 if len(cs) == 1 and None not in ret_cls:
                     self.hint_cls.setdefault(smt.simp(rv).get_id(), next(iter(cs)))
